@@ -42,6 +42,12 @@ func runMode(mode string, rep *Report, replay string) bool {
 	case "store":
 		runStore(rep, replay)
 		return true
+	case "stress":
+		runStress(rep, replay)
+		return true
+	case "ttl":
+		runTTL(rep, replay)
+		return true
 	case "snapfail":
 		runSnapfail(rep, replay)
 		return true
